@@ -29,8 +29,8 @@ PLAN["C02"] = dict(
     jobs=lambda t: [J(f"miri-seq-{i}", "miri", a, shards=1, seeds=(0, 1), budget_s=240, absolute_seeds=True) for i, a in enumerate(
         [["seq", 0, 0, 20, 90, 1], ["seq", 2, 64, 14, 70, 2], ["seq", 6, 64, 30, 80, 3], ["seqset", 5, 0, 16, 60, 4]]
         + ([["seq", 1, 3, 40, 150, 5], ["seq", 3, 64, 18, 120, 6], ["seq", 4, 8, 24, 120, 7], ["seqset", 2, 64, 14, 100, 8]] if t == "thorough" else []))] + [
-        J("seq", "native", ["c02", "--sequences", q(t, 700, 8000)], shards=16, budget_s=q(t, 40, 600)),
-        J("seq-asan", "asan", ["c02", "--sequences", q(t, 80, 800)], shards=q(t, 8, 16), budget_s=q(t, 30, 400)),
+        J("seq", "native", ["c02", "--sequences", q(t, 700, 400000)], shards=16, budget_s=q(t, 40, 360)),
+        J("seq-asan", "asan", ["c02", "--sequences", q(t, 80, 100000)], shards=q(t, 8, 16), budget_s=q(t, 30, 240)),
     ],
 )
 
@@ -45,8 +45,8 @@ PLAN["C03"] = dict(
     jobs=lambda t: [
         J("bulk", "native", ["c03", "--part", "bulk"], shards=8, budget_s=q(t, 20, 120)),
         J("bulk-asan", "asan", ["c03", "--part", "bulk"], shards=8, budget_s=q(t, 30, 180)),
-        J("held", "native", ["c03", "--part", "held", "--rounds", q(t, 1200, 8000)], shards=8, budget_s=q(t, 40, 900), parallel=8),
-        J("held-asan", "asan", ["c03", "--part", "held", "--rounds", q(t, 60, 2000)], shards=8, budget_s=q(t, 40, 500), parallel=8),
+        J("held", "native", ["c03", "--part", "held", "--rounds", q(t, 1200, 400000)], shards=8, budget_s=q(t, 40, 400), parallel=8),
+        J("held-asan", "asan", ["c03", "--part", "held", "--rounds", q(t, 60, 100000)], shards=8, budget_s=q(t, 40, 300), parallel=8),
     ] + miri_jobs_late(["list-mix4", "tree-samebin-mix4", "split-trees"], q(t, 4, 96), q(t, 1, 12)),
 )
 
@@ -60,9 +60,9 @@ PLAN["C01"] = dict(
     ],
     require={"key_histories_checked": 500, "contended_key_histories": 20, "rounds_with_resize": 5, "rounds_with_tree_conversion": 5},
     jobs=lambda t: [
-        J("freerun", "native", ["c01", "--rounds", q(t, 1200, 8000)], shards=q(t, 8, 12), budget_s=q(t, 35, 900), parallel=q(t, 8, 12)),
-        J("serial", "native", ["c01", "--part", "serial", "--schedules", q(t, 6000, 120000)], shards=q(t, 8, 16), budget_s=q(t, 30, 600), parallel=q(t, 8, 16)),
-        J("plain", "plain", ["stress", "--oracle", "lin", "--rounds", q(t, 1500, 40000)], shards=8, budget_s=q(t, 25, 600), parallel=8),
+        J("freerun", "native", ["c01", "--rounds", q(t, 1200, 400000)], shards=q(t, 8, 12), budget_s=q(t, 35, 420), parallel=q(t, 8, 12)),
+        J("serial", "native", ["c01", "--part", "serial", "--schedules", q(t, 6000, 4000000)], shards=q(t, 8, 16), budget_s=q(t, 30, 240), parallel=q(t, 8, 16)),
+        J("plain", "plain", ["stress", "--oracle", "lin", "--rounds", q(t, 1500, 4000000)], shards=8, budget_s=q(t, 25, 240), parallel=8),
     ],
 )
 
@@ -73,8 +73,8 @@ PLAN["C04"] = dict(
     require={"instances_created": 1000, "drops_before_teardown": 100, "path_treeify": 1, "path_list_split": 1},
     miri_classes=["leak", "ub"],
     jobs=lambda t: [
-        J("ledger", "native", ["c04", "--rounds", q(t, 1500, 8000)], shards=q(t, 8, 12), budget_s=q(t, 35, 900), parallel=q(t, 8, 12)),
-        J("plain", "plain", ["stress", "--oracle", "ledger", "--rounds", q(t, 1500, 40000)], shards=8, budget_s=q(t, 25, 600), parallel=8),
+        J("ledger", "native", ["c04", "--rounds", q(t, 1500, 400000)], shards=q(t, 8, 12), budget_s=q(t, 35, 420), parallel=q(t, 8, 12)),
+        J("plain", "plain", ["stress", "--oracle", "ledger", "--rounds", q(t, 1500, 4000000)], shards=8, budget_s=q(t, 25, 240), parallel=8),
     ] + miri_jobs_late(["list-mix4", "tree-samebin-mix4", "tree-grow-from-0"], q(t, 4, 96), q(t, 1, 12)),
 )
 
@@ -84,8 +84,8 @@ PLAN["C05"] = dict(
     assumptions=["audits run only when every worker thread has been joined"],
     require={"quiescent_points_audited": 100, "points_after_multi_thread_resize": 3, "tree_bins_audited": 3},
     jobs=lambda t: [
-        J("quiescent", "native", ["c05", "--rounds", q(t, 2500, 10000)], shards=q(t, 8, 12), budget_s=q(t, 35, 900), parallel=q(t, 8, 12)),
-        J("plain", "plain", ["stress", "--oracle", "agree", "--rounds", q(t, 1500, 40000)], shards=8, budget_s=q(t, 25, 600), parallel=8),
+        J("quiescent", "native", ["c05", "--rounds", q(t, 2500, 400000)], shards=q(t, 8, 12), budget_s=q(t, 35, 420), parallel=q(t, 8, 12)),
+        J("plain", "plain", ["stress", "--oracle", "agree", "--rounds", q(t, 1500, 4000000)], shards=8, budget_s=q(t, 25, 240), parallel=8),
     ],
 )
 
@@ -116,7 +116,7 @@ PLAN["C10"] = dict(
     assumptions=["resize events are emitted by hooks at points ordered before the next generation can begin"],
     require={"help_transfer_joins_orchestrated": 6, "stamp_lengths": 31, "orch_generations_multi_helper": 5, "generations": 50, "generations_multi_helper": 3, "ladder_runs": 6, "ladder_growths": 30},
     jobs=lambda t: [
-        J("resize", "native", ["c10", "--rounds", q(t, 700, 6000)], shards=q(t, 8, 12), budget_s=q(t, 40, 900), parallel=q(t, 8, 12)),
+        J("resize", "native", ["c10", "--rounds", q(t, 700, 400000)], shards=q(t, 8, 12), budget_s=q(t, 40, 480), parallel=q(t, 8, 12)),
     ],
 )
 
@@ -158,7 +158,7 @@ PLAN["C07"] = dict(
     assumptions=["stability of a key is decided only from definite real-time facts of the recorded history"],
     require={"lockstep_iterators_that_crossed_tables": 5, "stable_keys_verified": 1000, "freerun_rounds_iterating_across_resize": 5, "remover_stopped_with_empty_tree_bin": 1},
     jobs=lambda t: [
-        J("iter", "native", ["c07", "--rounds", q(t, 800, 6000)], shards=q(t, 8, 12), budget_s=q(t, 40, 900), parallel=q(t, 8, 12)),
+        J("iter", "native", ["c07", "--rounds", q(t, 800, 400000)], shards=q(t, 8, 12), budget_s=q(t, 40, 420), parallel=q(t, 8, 12)),
         J("tree-last-node", "native", ["c07", "--part", "tree-last-node"], shards=1, budget_s=20),
     ],
 )
@@ -169,7 +169,7 @@ PLAN["C08"] = dict(
     assumptions=["a probe in which the competitor had not started or only reads is counted as missed, never as a violation"],
     require={"probes_competitor_observed_blocked_until_closure_returned": 20, "increments_conserved": 1000, "rmw_calls_whose_closure_ran": 500},
     jobs=lambda t: [
-        J("rmw", "native", ["c08", "--rounds", q(t, 1000, 6000)], shards=q(t, 8, 12), budget_s=q(t, 45, 900), parallel=q(t, 8, 12)),
+        J("rmw", "native", ["c08", "--rounds", q(t, 1000, 400000)], shards=q(t, 8, 12), budget_s=q(t, 45, 420), parallel=q(t, 8, 12)),
     ],
 )
 
@@ -193,7 +193,7 @@ PLAN["C13"] = dict(
     assumptions=["a race in which the predicate never saw the key or the writer did not run is inconclusive"],
     require={"races_completed_between_inspection_and_removal": 100, "retain_rejections_checked": 50, "retain_force_rejections_checked": 50, "sequential_retain_cases": 500},
     jobs=lambda t: [
-        J("retain", "native", ["c13", "--rounds", q(t, 3000, 12000)], shards=q(t, 8, 12), budget_s=q(t, 35, 900), parallel=q(t, 8, 12)),
+        J("retain", "native", ["c13", "--rounds", q(t, 3000, 400000)], shards=q(t, 8, 12), budget_s=q(t, 35, 300), parallel=q(t, 8, 12)),
     ],
 )
 
@@ -229,9 +229,9 @@ PLAN["C11"] = dict(
     require_prefix={"miri_seeds_": 8, "hammer_writer_parks": 100, "plain_hammer_writer_calls": 10000},
     jobs=lambda t: miri_jobs(["tree-mix3", "tree-readers", "init-race", "grow"], q(t, 12, 256), q(t, 4, 16))
     + miri_jobs(["tree-samebin-mix4", "tree-grow-from-0", "list-mix4"], q(t, 4, 128), q(t, 1, 16))
-    + [J("serial", "native", ["c11", "--schedules", q(t, 6000, 120000)], shards=q(t, 8, 16), budget_s=q(t, 30, 600), parallel=q(t, 8, 16)),
-       J("hammer", "native", ["c11", "--part", "hammer", "--rounds", q(t, 40, 1500)], shards=4, budget_s=q(t, 35, 600), parallel=4, blocked_is_violation=True),
-       J("hammer-plain", "plain", ["hammer", "--rounds", q(t, 60, 3000)], shards=4, budget_s=q(t, 35, 600), parallel=4, blocked_is_violation=True)]
+    + [J("serial", "native", ["c11", "--schedules", q(t, 6000, 4000000)], shards=q(t, 8, 16), budget_s=q(t, 30, 240), parallel=q(t, 8, 16)),
+       J("hammer", "native", ["c11", "--part", "hammer", "--rounds", q(t, 40, 100000)], shards=4, budget_s=q(t, 35, 300), parallel=4, blocked_is_violation=True),
+       J("hammer-plain", "plain", ["hammer", "--rounds", q(t, 60, 100000)], shards=4, budget_s=q(t, 35, 300), parallel=4, blocked_is_violation=True)]
     + [J("f6-regression-seed16", "miri", LIT["tree-mix3"], shards=1, seeds=(16, 17), budget_s=90, absolute_seeds=True),
        J("f6-regression-seed131", "miri", LIT["tree-mix3"], shards=1, seeds=(131, 132), budget_s=90, absolute_seeds=True)],
 )
